@@ -69,6 +69,24 @@ func main() {
 		code := runSelftest(repo, verifDir, only)
 		os.RemoveAll(workDir)
 		os.Exit(code)
+	case "checkpatch":
+		// gocv checkpatch <prop> <patch.diff>: the quick check of <prop> on the tree with the patch applied
+		// through an in-memory overlay (nothing is written into the repository)
+		if len(os.Args) < 4 {
+			fmt.Fprintln(os.Stderr, "usage: gocv checkpatch <prop> <patch.diff>")
+			os.Exit(2)
+		}
+		os.MkdirAll(filepath.Join(verifDir, ".work"), 0o755)
+		workDir, _ = os.MkdirTemp(filepath.Join(verifDir, ".work"), "patch-")
+		ov, err := overlayFromPatch(repo, os.Args[3])
+		if err != nil {
+			fmt.Fprintln(os.Stderr, err)
+			os.RemoveAll(workDir)
+			os.Exit(2)
+		}
+		code := runCheck(repo, verifDir, CheckOpts{Prop: os.Args[2], Tier: "quick", TimeoutS: 20}, ov, false)
+		os.RemoveAll(workDir)
+		os.Exit(code)
 	case "locals":
 		// gocv locals: records, for every function under contract with loop invariants, the names of its
 		// locals in declaration order (contracts/locals.json).  Used only to keep invariants applicable when
